@@ -101,15 +101,19 @@ theorem C17_two_docs_independent (s1 s2 d1 d2 : String) (hlen : d1.length = d2.l
   have hl : d1.toList.length = d2.toList.length := by rw [String.length_toList, String.length_toList, hlen]
   exact String.ext (List.append_inj_right' h' hl)
 
-/-! ### boundary / constant species (round 4) -/
+/-! ### boundary / constant species (round 4) — properties of the REFERENCE SEMANTICS `docRhs17`, not of the import code
 
-/-- a boundary / constant species takes part in reactions without being changed by them: its amount has derivative 0
+The two theorems below unfold the declarative document semantics (what the tie compares the imported model with); they say what
+that specification prescribes for boundary species.  The clause "derivatives = stoichiometry × kinetic laws, prescribed initial
+values" is established for the code by the differential tie (pysbml's parse / transform is third party), not by a theorem. -/
+
+/-- (specification) a boundary / constant species takes part in reactions without being changed by them: its amount has derivative 0
     at every state, whatever the reactions and laws (there are no rate rules in the subset) -/
 theorem C17_fixed_species_constant (I : Interp) (d : Doc) (amounts : List (String × Rat)) (x : String) (s : Species)
     (hs : findSpecies d x = some s) (hf : s.fixed = true) : docRhs17 I d amounts x = some 0 := by
   simp [docRhs17, hs, hf]
 
-/-- … and every other species keeps the reading of the flat document: Σ (products − reactants) · law -/
+/-- (specification) … and every other species keeps the reading of the flat document: Σ (products − reactants) · law -/
 theorem C17_free_species_rhs (I : Interp) (d : Doc) (amounts : List (String × Rat)) (x : String) (s : Species)
     (hs : findSpecies d x = some s) (hf : s.fixed = false) :
     docRhs17 I d amounts x = docRhs I (toSDoc d) (symState d amounts) x := by
@@ -294,6 +298,21 @@ theorem C17_import_refs_resolve (pm : PModel) (hnd : (pm.derived.map (·.1) ++ p
     resolveModule m = specCalls (importSym pm) ∧ (m.functions.map (·.1)).Nodup :=
   have hnd' : (takenOf (importSym pm)).Nodup := by rw [takenOf_importSym]; exact hnd
   ⟨C17_codegen_refs_resolve _ hnd' m h, (C17_codegen_function_names_distinct _ hnd' m h).1⟩
+
+/-- non-vacuity of `C17_import_refs_resolve` / `C17_import_ia_overrides_value`: a pysbml model with two reactions (one with a
+    computed coefficient), a rule-defined quantity and an initial assignment on a parameter -/
+def pm₀ : PModel :=
+  { variables := [("S1", 1, false), ("S2", 2, false)]
+    parameters := [("k", 3, false), ("q", 4, false)]
+    derived := [("ratio", ⟨5, ["S1", "k"]⟩)]
+    reactions := [("R1", ⟨⟨6, ["S1", "k"]⟩, [("S1", .float 7), ("S2", .other ⟨8, ["q"]⟩)]⟩),
+                  ("R2", ⟨⟨9, ["S2", "ratio"]⟩, [("S2", .float 7)]⟩)]
+    inits := [("q", ⟨10, ["k"]⟩)] }
+
+example : (pm₀.derived.map (·.1) ++ pm₀.reactions.map (·.1)).Nodup ∧ (pm₀.inits.map (·.1)).Nodup ∧
+    (genModule (importSym pm₀)).toBool = true ∧ hasKey pm₀.parameters "q" = true ∧ ("q", (⟨10, ["k"]⟩ : PExpr)) ∈ pm₀.inits ∧
+    (importSym pm₀).parameters.lookup "q" = some { value := .fn { fnName := "q", expr := 10, args := ["k"] }, unit := false } := by
+  decide +kernel
 
 /-- `_codegen`: an initial assignment on a parameter replaces that parameter's value by the assignment's
     function (named after the key, parameters = its free symbols); on a variable that is no parameter likewise;
